@@ -246,7 +246,7 @@ func (fr *frame) instr(b *ssa.BasicBlock, ins ssa.Instruction, st *state) bool {
 		for _, r := range x.Results {
 			vals = append(vals, fr.val(r))
 		}
-		fr.rets = append(fr.rets, retSite{cond: st.cur, vals: vals, st: st.clone(), block: b, pos: x.Pos()})
+		fr.rets = append(fr.rets, retSite{cond: st.cur, vals: vals, st: st.clone(), block: b, pos: x.Pos(), hz: len(g.asserts)})
 	case *ssa.Panic:
 		g.addObl(fr, st, "safety", "panic:"+fr.srcAnchor(x.Pos(), isCall, "panic"), "explicit panic is unreachable", x.Pos(), "false")
 	case *ssa.Send:
